@@ -17,7 +17,8 @@ RULE = ('10% unit-spelling cases (one quantity per dimension spelled 2-4 '
         'which some server was >=50% used in a dimension after a cycle and an '
         'eviction/move/lost placement occurred, with capacity vectors whose '
         'dimensions differ. distinct = distinct canonical JSON of the case.'
-        ' Since rounds 5-7: a third of the E1 cells are small; E2 histories include buckets leaving/re-entering the cell (cell_remove_bucket / cell_insert_bucket), re-parenting, and master starts with a stale second placement record of an instance.')
+        ' Since rounds 5-7: a third of the E1 cells are small; E2 histories include buckets leaving/re-entering the cell (cell_remove_bucket / cell_insert_bucket), re-parenting, and master starts with a stale second placement record of an instance.'
+        " Since round 9 (E2): at event quiescence the capacity that counts is what the server's record declares now, if that content was announced through the admin API (c01.record.*); bursts of more than 20 admin events in one delivery.")
 ASSUMPTIONS = [
     'virtual clock replaces treadmill.scheduler.time (integer microseconds)',
     'servers are registered the way Loader.load_server does '
